@@ -45,7 +45,7 @@ SPEC = dict(
             "columns, canonical sublists for n = 3, Near, D(seed) 4x3; full U set for leak in {None,(0,1/2,1)}, U in ({0,1/2} u "
             "{P_j})^n for the other leaks (3x3: the reduced U set for all leaks); float32 on 2x2. Random: m <= 5. MGDA: all ternary "
             "<= 3x2 + canonical 3x3 + Near + D + row scalings (2-row) + global scales (canonical, m n <= 6). CAGrad: canonical "
-            "sublists of all shapes <= 3x3 (612), Near, D, row scalings and global scales on canonical sublists with 2 rows / m n <= 6"
+            "sublists of all shapes <= 3x3 (612), Near, D, row scalings and global scales on canonical sublists with 2 rows / m n <= 6; native-seed structural family; buffer re-use histories"
         ),
         thorough=(
             "PCGrad: all m!^m raw randperm results on ALL 21 297 ternary matrices up to 3x3, Near, D(seed), row scalings L3^m on "
